@@ -161,6 +161,9 @@ def c09(tier, seed):
     # "never returns normally while a selected active node has not run" also for executors that are run again after a failure
     jobs += [dict(kind="hist15", pid="C09", n_histories=(40 if tier == "quick" else 400), only=["executor_rerun_used_partially_consumed_graph"],
                   **_seeds(seed + 70, k)) for k in range(2 if tier == "quick" else 8)]
+    # ... and for setup() / executor.setup() in both flavours: a setup operation that returns normally has run its selection
+    jobs += [dict(kind="hist11", pid="C09", n_histories=(40 if tier == "quick" else 400), only=["setup_node_in_selection_did_not_run"],
+                  **_seeds(seed + 75, k)) for k in range(2 if tier == "quick" else 8)]
     return dict(
         jobs=jobs, level="fault_enumeration",
         rule=RULE_SCHED + "; bounded progress: loop iterations <= 10N+20 (sys.monitoring JUMP count), no wait on something that "
